@@ -12,6 +12,7 @@
    survives infer_from_expect / schema_answers / post_schema_ans_val, whether the student input is text,
    what self.check returns for given stored answers.  No proofs in this file. *)
 From Coq Require Import ZArith QArith List Bool.
+From Verif.Lib Require Export ProtocolSyntax.
 From Verif.Model Require Import Result.
 Import ListNotations.
 
@@ -43,47 +44,6 @@ Definition generic_error (shown : str) : exn :=
   mkExn student_facing_error true (generic_prefix ++ shown ++ [39]%Z).
 
 Definition none_exn : exn := mkExn [] false [].     (* placeholder for paths real programs never take *)
-
-(* ---------------------------------------------------------------------------------------------- *)
-(* the command language                                                                           *)
-(* ---------------------------------------------------------------------------------------------- *)
-Inductive loc := Tmp | Cfg.          (* a local variable  |  self.config['answers'] *)
-
-Inductive bexp :=
-| BExpectGiven                       (* expect is not None *)
-| BInferring                         (* self.inferring_answers *)
-| BHasAnswers                        (* bool(self.config['answers']) *)
-| BLogCreated                        (* self.log_created *)
-| BNot (b : bexp) | BAnd (a b : bexp) | BOr (a b : bexp).
-
-Inductive cmd :=
-| CInfer                             (* inferred = self.infer_from_expect(expect) *)
-| CSchema (dst : loc)                (* dst = self.schema_answers(inferred) *)
-| CPost (src dst : loc)              (* dst = self.post_schema_ans_val(src)   -- mutates the object in src *)
-| CMove (src dst : loc)              (* dst = src *)
-| CCreateLog                         (* self.create_debuglog(student_input) *)
-| CLogInferred                       (* self.log("Expect value inferred to be ...") *)
-| CSetInferring (b : bool)           (* self.inferring_answers = b *)
-| CSetLogCreated (b : bool)          (* self.log_created = b *)
-| CEnsureText                        (* student_input = self.ensure_text_inputs(student_input) *)
-| CCheck.                            (* try: result = self.check(None, student_input) except ...; ...; return result *)
-
-(* the body of create_debuglog *)
-Inductive lcmd :=
-| LcReset                            (* self.debuglog = [] *)
-| LcVersion                          (* the two version lines *)
-| LcResponse                         (* "Student Response(s):\n" + ... *)
-| LcDefaults                         (* if self.modified_defaults: log them *)
-| LcSetCreated (b : bool).           (* self.log_created = b *)
-
-Record create_program := mkCreate { cp_return_if : bexp; cp_body : list lcmd }.
-
-Record call_program := mkProg {
-  p_guard   : bexp;                  (* ItemGrader.__call__: condition of the inference block *)
-  p_block   : list cmd;              (* the inference block *)
-  p_super   : list cmd;              (* AbstractGrader.__call__ *)
-  p_finally : list cmd               (* run on every exit (empty in the code as it stands) *)
-}.
 
 (* ---- the programs of the code as it stands (pinned tree); Gen/Protocol.v must regenerate exactly these ---- *)
 Definition create_prog_faithful : create_program :=
@@ -191,7 +151,7 @@ Definition exec_lcmd (s : S) (c : lcmd) (m : state) : state :=
   | LcReset => set_log [] m
   | LcVersion => add_lines [LVersion] m
   | LcResponse => add_lines [LResp s] m
-  | LcDefaults => if defaults_modified then add_lines [LDefaults] m else m
+  | LcDefaults => add_lines (if defaults_modified then [LDefaults] else []) m
   | LcSetCreated b => set_created b m
   end.
 
@@ -346,19 +306,9 @@ Arguments event : clear implicits.
 (* ---------------------------------------------------------------------------------------------- *)
 (* MathArray.enable_negative_powers (a context manager over a class attribute)                    *)
 (* ---------------------------------------------------------------------------------------------- *)
-Inductive swval := SvArg | SvDefault.                (* `value`  |  cls._default_negative_powers *)
-Inductive swcmd := SwSet (v : swval).                (* cls._negative_powers = v *)
-
-Record cm_program := mkCm {
-  cm_setup : list swcmd;          (* before the yield *)
-  cm_in_finally : bool;           (* is the teardown inside `finally:` *)
-  cm_teardown : list swcmd
-}.
-
 Definition cm_prog_faithful : cm_program := mkCm [SwSet SvArg] true [SwSet SvDefault].
 Definition cm_prog : cm_program := cm_prog_faithful.
 
-Record switch := mkSwitch { sw_flag : bool; sw_default : bool }.
 
 Definition exec_sw (arg : bool) (c : swcmd) (w : switch) : switch :=
   match c with
